@@ -421,3 +421,21 @@ Definition f7q_class (fuel : nat) (bods : ty -> list (list ty)) (co : ty -> bool
         let C := scc_of fuel bods g in
         existsb (fun x => Nat.leb 2 (length (dedupT (filter (fun y => memT y C) (concat (bods x)))))) C) R
   end.
+
+(** ** The negated form (F7n): SLG answers Ambiguous (or panics "Negative subgoal had
+    delayed_subgoals") for a closed query with a literal [not { a }] when the search for [a]
+    reaches a coinductive cycle whose component is not a simple ring, or is a ring that the
+    search enters at two different members (the table of the second entry point was created as
+    a non-root member of the first one's cycle; its answer keeps a delayed subgoal, which the
+    negative literal cannot use):
+    [#[auto] trait Send {} struct S0 { a: S3 } struct S3 { b: S0 }]: [not { (S3, S0): Send }] => Ambiguous. *)
+Definition f7n_atom (fuel : nat) (bods : ty -> list (list ty)) (co : ty -> bool) (a : ty) : bool :=
+  match reach bods fuel [a] [] with
+  | None => false
+  | Some R =>
+      existsb (fun g =>
+        co g && on_cycle fuel bods g &&
+        let C := scc_of fuel bods g in
+        (existsb (fun x => Nat.leb 2 (length (dedupT (filter (fun y => memT y C) (concat (bods x)))))) C
+         || Nat.leb 2 (length (filter (fun m => existsb (fun p => negb (memT p C) && memT m (concat (bods p))) R) C)))) R
+  end.
